@@ -13,7 +13,10 @@ LEVEL_TEXT = {
             'live elements (all five identity-aliasing patterns, size regimes '
             'around both thresholds, dtypes incl. float16 / int16 / '
             'byte-swapped, C/F/strided layouts, weighted and exponent-p '
-            'spaces, product spaces with shared parts, sub-elements, a few '
+            'spaces, shape (), unaligned buffers, product spaces with shared '
+            'parts, sub-elements, broadcast operands that are parts of the '
+            'output, raw array / list operands, interludes on the twin space '
+            'of the other precision, a few '
             '+-inf/NaN entries) with allocator/out-buffer garbage injected; every '
             'operation is checked against an independent value model, '
             'non-output operands bitwise, and re-executed under a second '
@@ -28,18 +31,26 @@ LEVEL_TEXT = {
             'range / returned object is out, long-lived instance == fresh '
             'replica, rejection before any write. Pool elements and outs '
             'come in C / Fortran / strided layouts and with structured value '
-            'patterns (zero element, vanishing points, ties).', '4/C03'),
+            'patterns (zero element, vanishing points, ties); x and out may '
+            'be interleaved views of one buffer; every result an earlier '
+            'call returned is re-checked after every later operation; the '
+            'caller may take op.derivative(x), change x in place and call '
+            'again.', '4/C03'),
     'C10': ('For every proximal the library can produce (factories x options, '
             'Functional.proximal / convex_conj.proximal incl. derived '
             'functionals) and the listed solver building blocks: aliased '
             'call P(y, out=y) vs P(x) under injected garbage and across call '
-            'histories; the aliased call sites themselves are driven through '
-            'C11 lockstep runs.', '4/C10'),
+            'histories, incl. a second aliased call on what the first one '
+            'left (vs P(P(x)) of a fresh instance); the aliased call sites '
+            'themselves are driven through C11 lockstep runs.', '4/C10'),
     'C11': ('Lockstep refinement of each memory-optimised solver against the '
             'shipped _simple reference iterate by iterate, crash/resume with '
             'only caller-held state surviving (callback raises at a planned '
             'iteration; restart from same objects, copies or serialised '
-            'bytes), exactly-once callback accounting, all under allocator '
+            'bytes; for PDHG also against the plain call without resumption '
+            'variables), exactly-once callback accounting incl. composite '
+            'callbacks shared between runs, operators that return views of '
+            'their input, all under allocator '
             'garbage and forced permutation schedules. Seeded exploration '
             'over instances, schedules and fault sequences.', '4/C11'),
     'C12': ('Per-step invariants evaluated inside the callback while real '
@@ -48,18 +59,22 @@ LEVEL_TEXT = {
             'constructed saddle points, and bounded liveness (eps-KKT '
             'residual below 1e-3 of start within 3000 iterations after the '
             'last injected fault; 30000 for an iterate already within 1e-3 '
-            'of a verified KKT point), over seeded instances, RNG states, forced '
+            'of a verified KKT point), CG restarts next to the solution, '
+            'explicit line-search budgets on stiff objectives, over seeded instances, RNG states, forced '
             'permutation schedules and iterate-perturbation faults.', '4/C12'),
     'C17': ('Stateful part of the property only: histories of writes through '
             'any handle (raw array, wrapping elements, asarray views, '
-            'out= arguments, in-place ufuncs) on shared storages, checked for '
+            'out= arguments, in-place ufuncs, ufunc.at with values from '
+            'another storage, array operands of a foreign dtype or a larger '
+            'broadcast shape) on shared storages, checked for '
             'coherence and for bit-identity with NumPy on the model arrays; '
             'out buffers are garbage-filled first.', '4/C17'),
     'C18': ('Histories of calls on long-lived transform objects sharing '
             'plans/temporaries with their inverse/adjoint (create/clear '
             'temporaries, init/clear FFTW plan, in-place and out-of-place '
             'calls, wisdom kept or forgotten, scribbled temporaries, garbage '
-            'in out and planning buffers) checked call by call against '
+            'in out and planning buffers, a transform of the twin precision '
+            'first, x and out as interleaved views of one buffer) checked call by call against '
             'numpy.fft on a copy, a direct-sum model of the continuous '
             'transform, a fresh replica and the other back-end; pool elements '
             'and outs in C / Fortran / strided layouts, every element the '
